@@ -21,10 +21,13 @@ def replay_violation(pid, res, v, mod, cfg):
            'info': v.get('info', {}), 'decisions': v.get('decisions')}
     out = {'status': 'model-only', 'path': path}
     native = getattr(mod, 'native_replay', None)
-    if native is not None:
+    ob_native = getattr(getattr(res, 'ob', None), 'native_replay', None)
+    if native is not None or ob_native is not None:
         try:
             import native_replay
-            r = native(res.id, v)
+            r = ob_native(v) if ob_native is not None else None
+            if r is None and native is not None:
+                r = native(res.id, v)
             if r is not None:
                 rr = native_replay.run(r, cfg)
                 doc['native'] = rr
